@@ -201,6 +201,8 @@ func checkC20(p *core.Program, r *core.Report) {
 	r.Rule("R2", "every asset-reference field of an action struct is visible to the reflection walker (exported, json-named) or the type declares its dependencies explicitly")
 	r.Rule("R4", "extractExitsFromWaits includes every exit of every node whose router has a wait (no other filter); node enumerators cover all actions and the router")
 	r.Rule("R5", "every action struct field whose value reaches Run.EvaluateTemplate* carries engine:\"evaluated\" (else template-borne dependencies are invisible to inspection)")
+	r.Rule("R8", "the extraction chain drops nothing: from the tagged fields to the recorded references — templateValues' field callback, Translations, extractTemplates, the callbacks of flow.extract and its recordAssetRef — every hand-over (a call of the include callback, of the next stage, or the append that records) is decided only by loop bounds, type-switch arms, nil tests, the EngineField flags and Reference.Variable(); no hand-over is followed by leaving the enclosing loop early")
+	c20R8(p, r)
 	r.Rule("R7", "routers enumerate what they use: every receiver field of a router type whose value reaches Run.EvaluateTemplate* in its methods is passed on by its EnumerateTemplates, and every field whose type can hold a DependencyContainer or an asset reference by its EnumerateDependencies")
 	r.Assumption("inspect.walk visits exported json-tagged fields recursively (reflection semantics are not re-derived)")
 
@@ -717,6 +719,22 @@ func c20R4(p *core.Program, r *core.Report) {
 	}
 }
 
+// inLoop: the instruction's block lies in the body of some loop of its function.
+func inLoop(in ssa.Instruction) bool {
+	b := in.Block()
+	for _, h := range in.Parent().Blocks {
+		if !h.Dominates(b) {
+			continue
+		}
+		for _, pr := range h.Preds {
+			if h.Dominates(pr) && core.Reachable(b, nil)[h] {
+				return true
+			}
+		}
+	}
+	return false
+}
+
 // leavesLoopEarly: from the block of `in`, some path leaves the innermost enclosing loop without going back through
 // its header (a break or return after the instruction).
 func leavesLoopEarly(in ssa.Instruction) bool {
@@ -1109,4 +1127,179 @@ func c20R6(p *core.Program, r *core.Report) {
 	})
 	r.Check(copied["Key"] && copied["Name"] && copied["Categories"], "R6", "flows.NewResultSpecs/new-spec-copies-info", p.Pos(fn.Pos()),
 		"Key, Name, Categories copied from the extracted info", fmt.Sprintf("a new spec does not copy all of Key/Name/Categories from the extracted result (%v)", copied))
+}
+
+// ---------------------------------------------------------------------------------------------- R8
+
+// c20BenignCond: conditions that select what kind of thing is enumerated, not whether an existing thing is.
+func c20BenignCond(cond ssa.Value) bool {
+	switch x := cond.(type) {
+	case *ssa.UnOp:
+		if x.Op == token.NOT {
+			return c20BenignCond(x.X)
+		}
+		if x.Op == token.MUL {
+			if fv := core.FieldAddrVar(x.X); fv != nil {
+				if b, ok := fv.Type().Underlying().(*types.Basic); ok && b.Kind() == types.Bool {
+					if st := fieldOwner(x.X); st == "EngineField" {
+						return true
+					}
+				}
+			}
+		}
+	case *ssa.BinOp:
+		switch x.Op {
+		case token.LSS:
+			// loop bound: index < len(...)
+			if _, ok := isLenCall(x.Y); ok {
+				return true
+			}
+		case token.EQL, token.NEQ:
+			if core.IsNilConst(x.X) || core.IsNilConst(x.Y) {
+				return true
+			}
+		}
+	case *ssa.Extract:
+		switch t := x.Tuple.(type) {
+		case *ssa.TypeAssert:
+			return t.CommaOk && x.Index == 1
+		case *ssa.Next:
+			return x.Index == 0
+		}
+	case *ssa.Call:
+		if x.Call.IsInvoke() && x.Call.Method.Name() == "Variable" {
+			return true
+		}
+	case *ssa.Phi:
+		// a && b / a || b
+		for _, e := range x.Edges {
+			if c, isC := e.(*ssa.Const); isC && c.Value != nil {
+				continue
+			}
+			if !c20BenignCond(e) {
+				return false
+			}
+		}
+		return true
+	}
+	return false
+}
+
+// fieldOwner: the name of the struct type whose field the address selects.
+func fieldOwner(addr ssa.Value) string {
+	fa, ok := addr.(*ssa.FieldAddr)
+	if !ok {
+		return ""
+	}
+	t := fa.X.Type()
+	if pt, ok := t.Underlying().(*types.Pointer); ok {
+		t = pt.Elem()
+	}
+	if n, ok := t.(*types.Named); ok {
+		return n.Obj().Name()
+	}
+	return ""
+}
+
+func c20R8(p *core.Program, r *core.Report) {
+	type stage struct {
+		fn   *ssa.Function
+		name string
+		// which calls are hand-overs
+		handover func(cs core.CallSite) string
+	}
+	var stages []stage
+	paramCall := func(cs core.CallSite) string {
+		// a call of a function-typed parameter or captured variable (the include callback)
+		if cs.Common().IsInvoke() || cs.Common().StaticCallee() != nil {
+			return ""
+		}
+		if _, isB := cs.Common().Value.(*ssa.Builtin); isB {
+			return ""
+		}
+		switch v := cs.Common().Value.(type) {
+		case *ssa.Parameter:
+			return v.Name()
+		case *ssa.FreeVar:
+			return v.Name()
+		case *ssa.UnOp:
+			if fvv, ok := v.X.(*ssa.FreeVar); ok {
+				return fvv.Name()
+			}
+		}
+		return ""
+	}
+	staticNamed := func(names ...string) func(cs core.CallSite) string {
+		return func(cs core.CallSite) string {
+			if f := cs.Common().StaticCallee(); f != nil {
+				for _, n := range names {
+					if f.Name() == n {
+						return n
+					}
+				}
+			}
+			return ""
+		}
+	}
+	either := func(fs ...func(cs core.CallSite) string) func(cs core.CallSite) string {
+		return func(cs core.CallSite) string {
+			for _, f := range fs {
+				if s := f(cs); s != "" {
+					return s
+				}
+			}
+			return ""
+		}
+	}
+	if tv := p.Func("flows/inspect", "templateValues"); tv != nil {
+		for _, an := range tv.AnonFuncs {
+			stages = append(stages, stage{an, "inspect.templateValues/callback", either(staticNamed("extractTemplates", "Translations"), paramCall)})
+		}
+	}
+	if f := p.Func("flows/inspect", "Translations"); f != nil {
+		stages = append(stages, stage{f, "inspect.Translations", paramCall})
+	}
+	if f := p.Func("flows/inspect", "extractTemplates"); f != nil {
+		stages = append(stages, stage{f, "inspect.extractTemplates", paramCall})
+	}
+	if ex := p.Method("flows/definition", "flow", "extract"); ex != nil {
+		var walk func(f *ssa.Function)
+		walk = func(f *ssa.Function) {
+			for _, an := range f.AnonFuncs {
+				stages = append(stages, stage{an, "flow.extract/callback", either(staticNamed("NewExtractedReference", "NewExtractedTemplate"), paramCall)})
+				walk(an)
+			}
+		}
+		walk(ex)
+	}
+	n := 0
+	per := map[string]int{}
+	for _, st := range stages {
+		for _, cs := range core.Calls(st.fn, false) {
+			what := st.handover(cs)
+			if what == "" {
+				continue
+			}
+			n++
+			k := st.name + "->" + what
+			per[k]++
+			key := k
+			if per[k] > 1 {
+				key = fmt.Sprintf("%s#%d", k, per[k])
+			}
+			bad := ""
+			conds := core.MayConds(cs.Instr.Block())
+			for _, ce := range conds {
+				if !c20BenignCond(ce.Cond) {
+					bad = "it also depends on " + canonShort(ce.Cond) + " (" + p.Pos(ce.If.Pos()) + ")"
+				}
+			}
+			if bad == "" && inLoop(cs.Instr) && leavesLoopEarly(cs.Instr) {
+				bad = "the enclosing loop is left after the first hand-over"
+			}
+			r.Check(bad == "", "R8", key, p.Pos(cs.Pos()), fmt.Sprintf("%d deciding conditions: loop bounds, type arms, nil tests, engine flags only", len(conds)),
+				"the extraction stage "+st.name+" hands over to "+what+" conditionally: "+bad+" — templates or references that a run uses are then missing from the inspection's dependencies")
+		}
+	}
+	r.Require("extraction_handovers", n, 9)
 }
